@@ -90,6 +90,7 @@ var templates = []string{
 	"/c9/{f_string=**}", "/c9/a/{f_string=a/**}:verb", "/c9/b/{f_string=a/b/c/**}:verb", "/c9/int/{f_int32}", "/c9/typed/{f_uint64}/{f_bool}/{f_enum}",
 	"/c9/nest/{nest.leaf.label_text}/x/{nest.big_num}", "/c9/bytes/{f_bytes}", "/c9/wk/{w_int32}/{dur}", "/c9/body", "/c9/bodyfield", "/c9/resp", "/c9/stream",
 	"/c9/ws", "/c9/wsnobody", "/c9/upload/{name}", "/c9/download", "/c9/raw", "/c9/client", "/c9/server/{f_string}", "/c9/any/{f_string=*}/**", "/v1/healthz",
+	"/c9/p/{f_string=sh/*/bk/*}", "/c9/p/{f_string=sh/*}", "/c9/q/{f_string=*/mid/**}:verb", "/c9/r/{f_string=*/*/*}",
 }
 
 func theWorld() *dyn.World {
@@ -98,7 +99,10 @@ func theWorld() *dyn.World {
 			dyn.MethodSpec{Name: "U1", In: ".un.All", Out: ".un.All", Rule: rule("GET", "/c9/{f_string=**}", "", "",
 				rule("GET", "/c9/a/{f_string=a/**}:verb", "", ""), rule("GET", "/c9/b/{f_string=a/b/c/**}:verb", "", ""),
 				rule("GET", "/c9/int/{f_int32}", "", ""), rule("GET", "/c9/typed/{f_uint64}/{f_bool}/{f_enum}", "", ""),
-				rule("*", "/c9/any/{f_string=*}/**", "", ""))},
+				rule("*", "/c9/any/{f_string=*}/**", "", ""),
+				// variables whose pattern continues after a wildcard, next to a shorter sibling
+				rule("GET", "/c9/p/{f_string=sh/*/bk/*}", "", ""), rule("GET", "/c9/p/{f_string=sh/*}", "", ""),
+				rule("GET", "/c9/q/{f_string=*/mid/**}:verb", "", ""), rule("POST", "/c9/r/{f_string=*/*/*}", "", ""))},
 			dyn.MethodSpec{Name: "U2", In: ".un.All", Out: ".un.All", Rule: rule("GET", "/c9/nest/{nest.leaf.label_text}/x/{nest.big_num}", "", "",
 				rule("GET", "/c9/bytes/{f_bytes}", "", ""), rule("GET", "/c9/wk/{w_int32}/{dur}", "", ""),
 				rule("POST", "/c9/body", "*", ""), rule("PATCH", "/c9/bodyfield", "nest", ""), rule("POST", "/c9/resp", "*", "nest"))},
@@ -402,7 +406,7 @@ func firstLines(s string, n int) string {
 var hostilePaths = []string{"", "/", "//", "/:", ":", "/c9/:", "/c9/a:b:c", "/c9/a/a/x:verb", "/c9/a/a:verb", "/c9/b/a/b/c/x:verb", "/c9/b/a/b/c:verb", "/c9/b/a/b:verb", "/c9/b/a:verb",
 	"/c9/a/a/:verb", "/c9/x:", "/c9/int/", "/c9/int/99999999999", "/c9/int/1e3", "/c9/typed/1/true/RED", "/c9/typed/-1/TRUE/9", "/c9/bytes/!!!", "/c9/wk/1/1s", "/c9/wk/x/y",
 	"/c9/nest/a/x/1", "/c9/any/x/y/z", "/c9/any/x", "/v1/healthz", "/un.C9/U1", "/un.C9/Bidi", "/un.C9/Nope", "/grpc.health.v1.Health/Check", "/c9/\x00", "/c9/é/ü", "/c9/%zz", "/c9/a b",
-	"/c9/" + strings.Repeat("a/", 40), "/c9/" + strings.Repeat("x:", 40), strings.Repeat("/", 70), "/c9/{f_string}", "/c9/*", "/c9/**", "c9/x", "/c9/x/", "/c9/x//y"}
+	"/c9/p/sh/x", "/c9/p/sh/x/bk", "/c9/p/sh", "/c9/q/x", "/c9/q/x/mid", "/c9/q/x/mid:verb", "/c9/r/a/b", "/c9/r/a", "/c9/" + strings.Repeat("a/", 40), "/c9/" + strings.Repeat("x:", 40), strings.Repeat("/", 70), "/c9/{f_string}", "/c9/*", "/c9/**", "c9/x", "/c9/x/", "/c9/x//y"}
 
 var hostileQueries = []string{"", "f_int32=1", "f_int32=x", "nope=1", "r_int32=1&r_int32=2", "r_leaf.count=1", "r_leaf=1", "m_si.key=1", "m_si=1", "m_sl.a.count=1", "nest.leaf.count.x=1", "f_int32.x=1",
 	"o_leaf.count=1&o_string=x", "nest=1", "nest.leaf=1", "ts=x", "ts=2020-01-01T00:00:00Z", "mask=a,b", "w_string=%22", "w_string=\"", "w_bytes=%", "f_bytes=!!", "f_enum=PURPLE", "http_body.data=QQ",
@@ -522,7 +526,11 @@ func genPath(t *rapid.T) string {
 		}
 		p := sb.String()
 		p = strings.ReplaceAll(p, "**", "p/q")
-		switch rapid.IntRange(0, 7).Draw(t, "pmut") {
+		switch rapid.IntRange(0, 9).Draw(t, "pmut") {
+		case 8, 9: // a prefix of the instantiation, cut at a segment boundary
+			if segs := strings.Split(p, "/"); len(segs) > 2 {
+				p = strings.Join(segs[:rapid.IntRange(2, len(segs)-1).Draw(t, "cutseg")], "/")
+			}
 		case 0:
 			p += ":verb"
 		case 1:
